@@ -136,7 +136,8 @@ impl Mutations {
     }
 
     pub(crate) fn is_empty(&self) -> bool {
-        self.standalone.is_empty() && self.related.is_empty()
+        // `related` has an element for each graph, even if none of its entities were mutated.
+        self.standalone.is_empty() && self.related.iter().all(Vec::is_empty)
     }
 
     /// Packs mutations into messages.
